@@ -31,7 +31,8 @@ pub fn respell(item: &Item, mode: Mode) -> Item {
                 Attr::O2o { instrs, .. } => {
                     for i in instrs {
                         new_list.push(match mode {
-                            Mode::AllBare => Attr::bare(i),
+                            // instructions without a bare form (allow_unknown) stay wrapped
+                            Mode::AllBare => Attr::auto(i),
                             Mode::EachWrapped => Attr::wrapped(vec![i]),
                         });
                     }
@@ -53,7 +54,8 @@ pub fn regroup(item: &Item, t: &mut Tape) -> (Item, usize) {
         let mut new_list = vec![];
         let mut group: Vec<Instr> = vec![];
         for i in instrs {
-            match t.weighted(&[2, 2, 4]) {
+            let w = if has_bare_form(&i.name()) { [2, 2, 4] } else { [0, 2, 6] };
+            match t.weighted(&w) {
                 0 => {
                     if !group.is_empty() {
                         if group.len() >= 2 {
@@ -141,6 +143,13 @@ impl Part for Spellings {
                     item = before;
                 }
             }
+        }
+        let faulted = labels.iter().any(|l| l.starts_with("fault:"));
+        if !faulted && t.chance(1, 3) {
+            // #[o2o(allow_unknown)] has no bare form; in valid inputs it changes nothing, wherever it sits in a list
+            let pos = t.below(item.attrs.len() + 1);
+            item.attrs.insert(pos, Attr::wrapped(vec![Instr::AllowUnknown]));
+            labels.push("allow_unknown".into());
         }
         let bare = respell(&item, Mode::AllBare);
         let wrapped = respell(&item, Mode::EachWrapped);
